@@ -397,7 +397,7 @@ def r7(ctx, F):
 
 def roots_exist(ctx, F):
     """canonicalize resolves only what exists (root_pair_hash falls back to the path as typed otherwise): an archive may be
-    loaded under a pair key only where both roots are known to exist - behind the Ok edge of a scan of the root, or the true /
+    loaded under a pair key (or, loaded early, reach reconcile) only where both roots are known to exist - behind the Ok edge of a scan of the root, or the true /
     Ok edge of an existence test of it (exists, metadata, canonicalize).  A root that can reach the load unproven makes
     `bisync /data mirror` from two working directories trust one archive."""
     b = work_body(F, 'bidir::run_bisync', ['archive::root_pair_hash'])
@@ -417,15 +417,23 @@ def roots_exist(ctx, F):
                 continue
             slots = {o.key for o in ao}
             ev = []      # edge sets that prove the root exists
-            for sb, st in fl.calls(lambda c: c in EXIST_OK or c == 'std::path::Path::exists' or c == 'std::path::Path::is_dir' or c == 'std::path::Path::try_exists'):
+            cgx = callgraph_of(F)
+
+            def walks(c):
+                # a crate function that lists the directory it is given (its Err on a missing root proves nothing was scanned)
+                return F.body(c) is not None and bool(cgx.reaches_callee(c, lambda x: x == 'std::fs::read_dir')) and 'Result<' in F.body(c).local_ty(0)
+            for sb, st in fl.calls(lambda c: c in EXIST_OK or c == 'std::path::Path::exists' or c == 'std::path::Path::is_dir' or c == 'std::path::Path::try_exists' or walks(c)):
                 if not st['args'] or {o.key for o in fl.origins(st['args'][0]) if o.kind == 'param'} != slots:
                     continue
                 oc = fl.outcomes(sb)
                 e = oc.get('Ok') or oc.get('true')
                 if e:
                     ev.append(e)
+            recs = [rb for rb, _ in fl.calls_to('reconcile::reconcile')]
             for lb, lt in loads:
                 ok = any(fl.cfg.edges_guard(e, lb) for e in ev) or _flag_implies(fl, lb, ev)
+                # .. or the archive is loaded early and every use of it (reconcile) lies behind the proof
+                ok = ok or (bool(recs) and all(any(fl.cfg.edges_guard(e, rb) for e in ev) for rb in recs))
                 ctx.check(ok, 'C07.R7', 'run_bisync:archive-loaded-for-existing-root#%d' % (ai + 1), 'Archive::load is reachable only where this root was scanned or shown to exist',
                           'run_bisync loads (and may trust) an archive under a pair key computed from a root that is not known to exist (such a root is not '
                           'canonicalized: the key is the path as typed, and the same spelling from another working directory finds a foreign archive that licenses deletes)',
